@@ -129,3 +129,36 @@ func HarnessC15LogBatchShutdown() {
 		vndAssert(!late, "nothing-exported-after-shutdown-returned")
 	}
 }
+
+// C15.logonce: LoggerProvider.Shutdown from two goroutines: every processor is
+// shut down exactly once
+type c15LogProcMu struct {
+	mu        sync.Mutex
+	shutdowns int
+}
+
+func (p *c15LogProcMu) OnEmit(context.Context, *Record) error { return nil }
+func (p *c15LogProcMu) ForceFlush(context.Context) error      { return nil }
+func (p *c15LogProcMu) Shutdown(context.Context) error {
+	p.mu.Lock()
+	p.shutdowns++
+	p.mu.Unlock()
+	return nil
+}
+
+func HarnessC15LogOnce() {
+	vndRaceOn(true)
+	a, b := &c15LogProcMu{}, &c15LogProcMu{}
+	p := &LoggerProvider{processors: []Processor{a, b}, attributeCountLimit: -1, attributeValueLengthLimit: -1}
+	var wg sync.WaitGroup
+	wg.Add(2)
+	for i := 0; i < 2; i++ {
+		go func() {
+			defer wg.Done()
+			p.Shutdown(context.Background())
+		}()
+	}
+	wg.Wait()
+	vndReach("joined")
+	vndAssert(a.shutdowns == 1 && b.shutdowns == 1, "each-processor-shut-down-exactly-once-from-any-number-of-goroutines")
+}
